@@ -161,6 +161,36 @@ Theorem C15_paradiag_fixed_point_is_sequential :
     u l m i = step_ic F M u0 u l i + sum M (fun j => (dt * Q m j) * (appA n A (u l j) i + gf l j i)).
 Proof. exact (full_fixed_point_is_sequential F f0 f1 fadd fmul fsub fopp fdiv finv Fth). Qed.
 
+(* (6) error propagation.  Let ustar be the sequential collocation solution (non-IMEX: the solver
+   inverts the full A).  One ParaDiag iteration maps the error e = u - ustar to e' with
+        (I (x) (I - dt Q (x) A) + E_alpha (x) H) e' = (E_alpha - E_0) (x) H e ,
+   i.e. zero except in the first step, where it is -alpha times the error at the end of the block:
+   the only coupling of the old iterate into the new one is through alpha. *)
+Theorem C15_paradiag_error_equation :
+  forall (N M n : nat) (s om omi g gi alpha dt : F) (Q A : mat F) (gf : stepsv F)
+         (w : nat -> nat -> F) (Sm Smi Ginv : nat -> mat F) (solve : F -> vec F -> vec F) (u0 : vec F),
+  (0 < N)%nat -> (0 < M)%nat -> om * omi = 1 -> om ^ N = 1 -> (forall j, (0 < j < N)%nat -> om ^ j <> 1) ->
+  s * s * sum N (fun _ => 1) = 1 -> g * gi = 1 -> g ^ N = alpha ->
+  (forall l i j, (l < N)%nat -> (i < M)%nat -> (j < M)%nat -> mm M (Sm l) (Smi l) i j = dl i j) ->
+  (forall l i j, (l < N)%nat -> (i < M)%nat -> (j < M)%nat ->
+     mm M (mm M Q (Ginv l)) (Sm l) i j = Sm l i j * w l j) ->
+  (forall l i j, (l < N)%nat -> (i < M)%nat -> (j < M)%nat ->
+     mm M (G_mat F f0 f1 fadd fmul M (d_fac F f1 fmul fopp fdiv om gi l)) (Ginv l) i j = dl i j) ->
+  (forall l m rhs i, (l < N)%nat -> (m < M)%nat -> (i < n)%nat ->
+     solve (w l m * dt) rhs i - (w l m * dt) * appA n A (solve (w l m * dt) rhs) i = rhs i) ->
+  forall ustar u,
+  (forall l m i, (l < N)%nat -> (m < M)%nat -> (i < n)%nat ->
+     ustar l m i = step_ic F M u0 ustar l i + sum M (fun j => (dt * Q m j) * (appA n A (ustar l j) i + gf l j i))) ->
+  forall l m i, (l < N)%nat -> (m < M)%nat -> (i < n)%nat ->
+  let e' := fun l m i =>
+     paradiag_iter F f0 fadd fmul fsub N M n dt Q A gf
+       (wfft F f0 f1 fadd fmul fdiv N s om gi) (wifft F f0 f1 fadd fmul N s omi gi)
+       w Sm Smi Ginv solve u0 u l m i - ustar l m i in
+  e' l m i - sum M (fun j => (dt * Q m j) * appA n A (e' l j) i)
+    + sum N (fun l' => E_mat F f0 f1 fopp N alpha l l' * mv M (H_mat F f0 f1 M) (e' l') m i)
+  = match l with O => - (alpha * (u (pred N) (pred M) i - ustar (pred N) (pred M) i)) | S _ => 0 end.
+Proof. exact (error_equation F f0 f1 fadd fmul fsub fopp fdiv finv Fth). Qed.
+
 End C15.
 
 Print Assumptions C15_weighted_fft_inverse.
@@ -173,6 +203,7 @@ Print Assumptions C15_G_inverse_closed_form.
 Print Assumptions C15_qdiag_one_shot.
 Print Assumptions C15_paradiag_increment_solves_alpha_system.
 Print Assumptions C15_paradiag_fixed_point_is_sequential.
+Print Assumptions C15_paradiag_error_equation.
 
 (* ---- non-vacuity: the Gaussian rationals are a field and every hypothesis above is satisfiable on
    non-trivial instances (N = 4, om = -i, alpha = 1/16; M = 2 one-shot; 4-step implicit-Euler block) *)
@@ -206,6 +237,14 @@ Example C15_nonvacuous_fixed_point :
   seq_collocation GQ g0 gadd gmul 4 1 1 b_dt b_Q b_A b_g b_u0 b_useq.
 Proof. exact (conj b_useq_fixed (b_fixed_point_instance b_useq b_useq_fixed)). Qed.
 Print Assumptions C15_nonvacuous_fixed_point.
+
+Example C15_nonvacuous_error_equation : forall u l m i, (l < 4)%nat -> (m < 1)%nat -> (i < 1)%nat ->
+  Calpha GQ g0 g1 gadd gmul gsub gopp 4 1 1 i4_alpha b_dt b_Q b_A
+    (fun l m i => gsub (paradiag_iter GQ g0 gadd gmul gsub 4 1 1 b_dt b_Q b_A b_g i4_W i4_V b_w b_S b_S b_Ginv b_solve b_u0 u l m i)
+                       (b_useq l m i)) l m i
+  = match l with O => gopp (gmul i4_alpha (gsub (u 3 0 i) (b_useq 3 0 i)))%nat | S _ => g0 end.
+Proof. exact b_error_equation_instance. Qed.
+Print Assumptions C15_nonvacuous_error_equation.
 
 Example C15_iteration_converges_instance :
   let u3 := b_iter 3 4 1 1 b_dt b_Q b_A b_g i4_W i4_V b_w b_S b_S b_Ginv b_solve b_u0 b_spread in
